@@ -783,6 +783,18 @@ def _same_source(prog, fn, tree, b, ext_op):
     return bool(a & bset)
 
 
+def _carries_encoder_assumptions(prog, b, op, depth=0):
+    """the value derives from a call of the encoder's `assumptions()`, directly or through a local function that returns such a value"""
+    _, calls, _ = data_deps(b, op)
+    for c in calls:
+        if re.search(r"::assumptions$", strip_generics(callee_name(callee_of(c)) or "")):
+            return True
+        t = prog.body_for_callee(callee_of(c), b) if callee_of(c) else None
+        if t is not None and t.kind != "closure" and depth < 2 and "Literal" in t.ret_ty and _carries_encoder_assumptions(prog, t, {"l": 0, "p": []}, depth + 1):
+            return True
+    return False
+
+
 def rule_encoder_assumptions_reach_sat_calls(ctx):
     """C08: the incremental encoders switch constraints on and off through assumptions; a SAT call that does not carry them answers for
     another framework"""
@@ -811,8 +823,7 @@ def rule_encoder_assumptions_reach_sat_calls(ctx):
                         for s in qb.calls():
                             if callee_matches(callee_of(s), r"SatSolver::solve_under_assumptions$"):
                                 n += 1
-                                _, calls, _ = data_deps(qb, s.node["args"][1])
-                                ok = any(re.search(r"::assumptions$", strip_generics(callee_name(callee_of(c)) or "")) for c in calls)
+                                ok = _carries_encoder_assumptions(prog, qb, s.node["args"][1])
                                 r.check(ok, "%s|solve" % qb.id, "encoder-assumptions-missing", "the SAT call assumes encoder.assumptions()", "a SAT call of the query does not carry the encoder's current assumptions: constraints of removed arguments / attacks stay switched on (or those of present ones off)", s.loc())
                             elif callee_matches(callee_of(s), r"SatSolver::solve$"):
                                 n += 1
@@ -825,8 +836,7 @@ def rule_encoder_assumptions_reach_sat_calls(ctx):
                             steps = [s for s in qb.calls() if callee_matches(callee_of(s), r"MaximalExtensionComputer::(compute_next|compute_maximal)$")]
                             ok = False
                             for st in sets:
-                                _, calls, _ = data_deps(qb, st.node["args"][1])
-                                if any(re.search(r"::assumptions$", strip_generics(callee_name(callee_of(c)) or "")) for c in calls) and all(qb.dominates(st, x) for x in steps):
+                                if _carries_encoder_assumptions(prog, qb, st.node["args"][1]) and all(qb.dominates(st, x) for x in steps):
                                     ok = True
                             r.check(ok, "%s|computer" % qb.id, "computer-without-encoder-assumptions", "the computer receives encoder.assumptions() before its first step", "the maximal-extension computer run by the query is not given the encoder's current assumptions before its first step", news[0].loc())
     r.floor(n, 5, "SAT calls / computers in the queries of the dynamic solvers")
@@ -856,6 +866,11 @@ def rule_encoder_assumptions_reach_sat_calls(ctx):
                         vroots = _creation(s.node["args"][1])
                         for c2 in b.calls():
                             d2 = callee_decl(callee_of(c2))
+                            if re.search(r"concat$", d2 or "") and len(c2.node["args"]) == 1 and _creation(s.node["args"][1]) & {(c2.bb, c2.si)}:
+                                from ..prov import prov as _prov, leaves as _leaves
+
+                                for e in _prov(prog, b, c2.node["args"][0]):
+                                    got |= {l[3][0] for l in _leaves(e) if l[0] == "param" and l[2] == 1 and l[3]}
                             if d2 in ("alloc::vec::Vec::append", "core::iter::traits::collect::Extend::extend", "alloc::vec::Vec::extend_from_slice", "core::iter::traits::iterator::Iterator::chain", "alloc::slice::concat", "alloc::slice::<impl [T]>::concat") and len(c2.node["args"]) >= 2:
                                 r0 = _creation(c2.node["args"][0])
                                 if (r0 & vroots) or d2.endswith("chain") or d2.endswith("concat"):
